@@ -2170,3 +2170,35 @@ func init() {
 		return p
 	}
 }
+
+func init() {
+	// "c09retry": a graceful shutdown that is given too little time and is then repeated. The
+	// leader's k-th refresh is slow at the store; StopWithContext{short time-out} comes while it is
+	// in flight, waits for it in vain and gives up (the term is over, OnDemote is not reported, the
+	// record stays); when the refresh has been answered the application calls
+	// StopWithContext{DeleteKey} again, which succeeds: the instance still owns the record, and the
+	// record must be gone when that call returns.
+	families["c09retry"] = func(r *Rng) *Plan {
+		p := &Plan{Judge: []string{"C09", "C01", "C08", "C18", "C19"}}
+		baseTiming(r, p, []time.Duration{100 * ms, 200 * ms, 500 * ms, 1 * sec})
+		n := 1 + r.Intn(2)
+		p.Insts = mkInsts(r, n, 1)
+		for i := range p.Insts {
+			p.Insts[i].V = Pick(r, []time.Duration{0, p.H, 2 * p.H})
+			p.Actions = append(p.Actions, Action{At: time.Duration(i) * r.Dur(p.H, 3*p.H), Kind: AStart, Inst: i})
+		}
+		p.Store = healthyStore(r, p.H/10)
+		k := 2 + r.Intn(4)
+		slow := r.Dur(300*ms, 900*ms)
+		p.Faults = append(p.Faults, Fault{Kind: FSlow, Inst: 0, Op: "update", OpN: k, Arg: slow})
+		p.Actions = append(p.Actions, Action{Kind: AStopCtx, Inst: 0, DeleteKey: r.Bool(0.7), Timeout: Pick(r, []time.Duration{20 * ms, 50 * ms, 100 * ms}),
+			OpKind: "update", OpN: k, Phase: "invoke", Delay: r.Dur(0, 10*ms)})
+		p.Actions = append(p.Actions, Action{Kind: AStopCtx, Inst: 0, DeleteKey: true, WaitForDemote: r.Bool(0.5),
+			OpKind: "update", OpN: k, Phase: "return", Delay: Pick(r, []time.Duration{0, r.Dur(0, p.H), r.Dur(0, p.TTL/2)})})
+		p.Until = time.Duration(k+2)*p.H + slow + 2*p.TTL + 2*sec
+		p.Tail = 0
+		statusCalls(r, p)
+		p.Sched = SchedCfg{YieldProb: Pick(r, []float64{0, 0.2, 0.5}), StallMax: 0}
+		return p
+	}
+}
